@@ -121,6 +121,9 @@ OBJECT_PAIRS = [
      'class Box(v) { value: `v` }\nstart = [let a = Box(1) in `type(a.value).__name__`, let a = Box(True) in `type(a.value).__name__`, /.*/]\n'),
     ('class W { w: /[a-z]+/ }\nPair(p) = [`p`, W]\nstart = (let a = W in (Pair(a) << "!")) | ("a" >> (let a = W in Pair(a)))\n',
      'class W { w: /[a-z]+/ }\nstart = (let a = W in ([`a`, W] << "!")) | ("a" >> (let a = W in [`a`, W]))\n'),
+    # an inline Python argument is one argument, whatever commas it contains
+    ('T(a) = [`a`, /[a-z]?/]\nU(a, b) = `(a, b)`\nstart = [T(`1, 2`), U(b=`3, 4`, a=`[i for i in (1, 2)]`), T(a=`5, `)]\n',
+     'start = [[`(1, 2)`, /[a-z]?/], `([i for i in (1, 2)], (3, 4))`, [`(5, )`, /[a-z]?/]]\n'),
 ]
 OBJECT_INPUTS = ['07!y', '7!x', '07!x', '7!y', '', 'ab', 'aab', 'abab!', 'aabab', 'a']
 BYTES_INPUTS = [b'ab', b'abab', b'abc', b'a', b'aa', b'aab', b'b', b'c', b'abca', b'', b'cab', b'ba']
